@@ -108,6 +108,7 @@ func closureOf(e *Exec, v Val) (ClosureV, bool) {
 
 func init() {
 	// ---------- fmt / errors ----------
+	extModelDoc["time.Now"] = "returns a time t with !t.IsZero()"
 	extModelDoc["fmt.Errorf"] = "returns a non-nil error; with error-typed arguments (the %w idiom) errors.Is(result, t) holds for every t that errors.Is(arg, t) holds for"
 	extModels["fmt.Errorf"] = func(e *Exec, s *State, args []Val, cc *ssa.CallCommon, setRes func(*State, Val), rest func(*State)) {
 		er := e.symbolic(s, cc.Signature().Results().At(0).Type(), "errorf").(*Agg)
